@@ -2,7 +2,7 @@ SPECIFICATION Spec
 CONSTANTS
   Mode = "model"
   AtomSet <- AllAtoms
-  PairAtoms <- CoreAtoms
+  PairAtoms <- QuickAtoms
   InnerAtoms <- Zeros
   PairOuter = TRUE
   Dump = TRUE
